@@ -62,6 +62,7 @@ fn dispatch(op: &str, a: &[&str]) -> Option<String> {
         "iseqraw" => crate::ops5::iseqraw_op(a),
         "rkraw" => crate::ops5::rkraw_op(a),
         "findfree" => crate::ops5::findfree_op(a),
+        "ppforeign" => crate::ops5::ppforeign_op(a),
         "find" => crate::ops3::find_op(a),
         "fnew" => crate::ops3::fnew_op(a),
         "rfind" => crate::ops3::rfind_op(a),
@@ -173,9 +174,47 @@ fn gcount(a: &[&str]) -> Option<String> {
 // ---------------------------------------------------------------------------
 // naive oracles
 
+/// above this many window comparisons the quadratic definition is replaced by Knuth-Morris-Pratt
+const NAIVE_LIMIT: usize = 20_000_000;
+
+/// first occurrence by KMP (independent of the crate; used as the oracle for huge inputs)
+fn kmp_first(hay: &[u8], needle: &[u8]) -> Option<usize> {
+    let m = needle.len();
+    if m == 0 {
+        return Some(0);
+    }
+    let mut fail = vec![0usize; m];
+    let mut k = 0;
+    for i in 1..m {
+        while k > 0 && needle[i] != needle[k] {
+            k = fail[k - 1];
+        }
+        if needle[i] == needle[k] {
+            k += 1;
+        }
+        fail[i] = k;
+    }
+    k = 0;
+    for (i, &b) in hay.iter().enumerate() {
+        while k > 0 && b != needle[k] {
+            k = fail[k - 1];
+        }
+        if b == needle[k] {
+            k += 1;
+        }
+        if k == m {
+            return Some(i + 1 - m);
+        }
+    }
+    None
+}
+
 pub fn naive_find(hay: &[u8], needle: &[u8]) -> Option<usize> {
     if needle.len() > hay.len() {
         return None;
+    }
+    if (hay.len() - needle.len()).saturating_mul(needle.len()) > NAIVE_LIMIT {
+        return kmp_first(hay, needle);
     }
     (0..=hay.len() - needle.len()).find(|&i| &hay[i..i + needle.len()] == needle)
 }
@@ -183,6 +222,11 @@ pub fn naive_find(hay: &[u8], needle: &[u8]) -> Option<usize> {
 pub fn naive_rfind(hay: &[u8], needle: &[u8]) -> Option<usize> {
     if needle.len() > hay.len() {
         return None;
+    }
+    if (hay.len() - needle.len()).saturating_mul(needle.len()) > NAIVE_LIMIT {
+        let h: Vec<u8> = hay.iter().rev().cloned().collect();
+        let n: Vec<u8> = needle.iter().rev().cloned().collect();
+        return kmp_first(&h, &n).map(|i| hay.len() - needle.len() - i);
     }
     (0..=hay.len() - needle.len()).rev().find(|&i| &hay[i..i + needle.len()] == needle)
 }
